@@ -12,9 +12,11 @@ CODE = ["signac.sync._FileModifyProxy (copy/copytree/remove/create_backup/create
         "signac.project.Project.sync / clone", "signac.job.Job.sync"]
 BOUNDS = {"dry run": "every project pair of the C13 universe in which something would be copied, cloned or merged (files top level and nested, flat/nested/conflicting documents, project documents) x strategy {None, always} x doc_sync {default, ByKey(all), update} "
                      "x entry point {Project.sync, Job.sync, sync_projects, sync_jobs}: both trees byte-identical (files, directories, mtimes) and the same outcome class as a real run on an identical pair",
+          "dry run, options": "source entry {regular file mode 0640, symlink to a file, dangling symlink} x destination entry {absent, different regular file, symlink elsewhere} x {top level, nested} x follow_symlinks x preserve_permissions x preserve_times "
+                              "x strategy {None, always} x entry point: both trees identical including link targets, permission bits and mtimes (lstat)",
           "deep": "conflicting files of equal size and equal mtime at top level and nested; deep x strategy {None, always} x entry point", "exclude/selection": "exclude {f, g} (file names); selection {None, [id0], [job1], [], ()}",
           "parallel": "{False, 2, True} give identical destination trees"}
-OUTSIDE = ["exclude patterns that name a DIRECTORY present on both sides (its files are still synchronised; the property speaks of files matching the pattern)", "thread interleavings inside the parallel pool (sampled by the OS: tree equality on the runs executed)", "symlink / permission / owner options"]
+OUTSIDE = ["exclude patterns that name a DIRECTORY present on both sides (its files are still synchronised; the property speaks of files matching the pattern)", "thread interleavings inside the parallel pool (sampled by the OS: tree equality on the runs executed)", "preserve_owner / preserve_group (need a second uid); symlinked directories"]
 STUBS = []
 ASSUMPTIONS = ["tmpfs behaves like the user's file system"]
 
@@ -185,8 +187,96 @@ def h_parallel(entry: int, excl: int, sel: int, f: int, g: int, par: int):
     assert not p0 and not p1 and same
 
 
+def _snap_meta(root):
+    """{relpath: ('dir', mode) | ('file', bytes, mode, mtime_ns) | ('link', target)} -- lstat based, so permission and time changes are visible"""
+    out = {}
+    for dp, dn, fn in os.walk(root):
+        for n in dn + fn:
+            p = os.path.join(dp, n)
+            st = os.lstat(p)
+            rel = os.path.relpath(p, root)
+            if os.path.islink(p):
+                out[rel] = ("link", os.readlink(p))
+            elif os.path.isdir(p):
+                out[rel] = ("dir", st.st_mode & 0o7777)
+            else:
+                with open(p, "rb") as fh:
+                    out[rel] = ("file", fh.read(), st.st_mode & 0o7777, st.st_mtime_ns)
+    return out
+
+
+def _place_opts(src, dst, skind, dkind, nested):
+    rel = "sub/e" if nested else "e"
+    sj, dj = src.open_job(SL.SPS[0]), dst.open_job(SL.SPS[0])
+    SL.put(sj.fn("tgt"), b"TARGET", SL.T_MID)
+    SL.put(dj.fn("tgt"), b"TARGET", SL.T_MID)
+    if nested:
+        os.makedirs(sj.fn("sub"), exist_ok=True)
+        os.makedirs(dj.fn("sub"), exist_ok=True)
+    up = "../" if nested else ""
+    if skind == 0:
+        SL.put(sj.fn(rel), b"SRC-longer", SL.T_NEW)
+        os.chmod(sj.fn(rel), 0o640)
+    elif skind == 1:
+        os.symlink(up + "tgt", sj.fn(rel))
+    else:
+        os.symlink(up + "nowhere", sj.fn(rel))
+    if dkind == 1:
+        SL.put(dj.fn(rel), b"DST", SL.T_OLD)
+        os.chmod(dj.fn(rel), 0o600)
+    elif dkind == 2:
+        SL.put(dj.fn("other"), b"OTHER!!", SL.T_OLD)
+        SL.put(sj.fn("other"), b"OTHER!!", SL.T_OLD)
+        os.symlink(up + "other", dj.fn(rel))
+
+
+def _dry_opts_case(entry, skind, dkind, nested, follow, perms, times, strat):
+    """symbolic links and the preserve_* options: a dry run changes nothing (content, link targets, permission bits, mtimes) in either tree"""
+    kw = dict(strategy=SL.strategy(strat), recursive=True, check_schema=False, follow_symlinks=follow, preserve_permissions=perms, preserve_times=times)
+    problems = []
+    with SL.Scratch() as sc1, SL.Scratch() as sc2:
+        src, dst = SL.build(sc1.root, 3, 0, 0, 0, 0, 0)
+        src2, dst2 = SL.build(sc2.root, 3, 0, 0, 0, 0, 0)
+        _place_opts(src, dst, skind, dkind, nested)
+        _place_opts(src2, dst2, skind, dkind, nested)
+        bs, bd = _snap_meta(src.path), _snap_meta(dst.path)
+        import io, contextlib
+        with contextlib.redirect_stdout(io.StringIO()):
+            out_dry = SL.outcome(_call(entry, src, dst, dry_run=True, **kw))
+        bd2 = _snap_meta(dst2.path)
+        out_real = SL.outcome(_call(entry, src2, dst2, **dict(kw, strategy=SL.strategy(strat))))
+        as_, ad = _snap_meta(src.path), _snap_meta(dst.path)
+        if as_ != bs:
+            problems.append(("dry run changed the source", sorted(k for k in set(as_) | set(bs) if as_.get(k) != bs.get(k))[:3]))
+        if ad != bd:
+            problems.append(("dry run changed the destination", sorted(k for k in set(ad) | set(bd) if ad.get(k) != bd.get(k))[:3]))
+        if out_real in ("ok", "file") and out_dry != out_real:
+            problems.append(("dry run outcome differs from the real run", out_dry, out_real))
+        changed = _snap_meta(dst2.path) != bd2
+    return problems, changed, out_real
+
+
+def h_dry_opts(entry: int, skind: int, dkind: int, nested: bool, follow: bool, perms: bool, times: bool, strat: int):
+    assert 0 <= entry <= 3 and 0 <= skind <= 2 and 0 <= dkind <= 2 and 0 <= strat <= 1 and part_ok(entry)
+    fresh_path()
+    entry, skind, dkind, nested, follow, perms, times, strat = ci(entry, 0, 3), ci(skind, 0, 2), ci(dkind, 0, 2), cb(nested), cb(follow), cb(perms), cb(times), ci(strat, 0, 1)
+    with nt():
+        problems, changed, out_real = _dry_opts_case(entry, skind, dkind, nested, follow, perms, times, strat)
+    reached()
+    assert not problems
+
+
+def h_dry_opts__reach(entry: int, skind: int, dkind: int, nested: bool, follow: bool, perms: bool, times: bool, strat: int):
+    assert 0 <= entry <= 3 and 0 <= skind <= 2 and 0 <= dkind <= 2 and 0 <= strat <= 1
+    entry, skind, dkind, follow, strat = ci(entry, 0, 3), ci(skind, 0, 2), ci(dkind, 0, 2), cb(follow), ci(strat, 0, 1)
+    with nt():
+        problems, changed, out_real = _dry_opts_case(entry, skind, dkind, False, follow, False, False, strat)
+    assert not (changed and out_real == "ok" and skind == 1 and not follow and dkind == 1)  # twin: a real run that REPLACES a destination file by a link is reachable
+
+
 HARNESSES = [
     dict(name="h_dry", twin="h_dry__reach", timeout=(900, 3000), parts=(18, 18), unblock=True),
+    dict(name="h_dry_opts", twin="h_dry_opts__reach", timeout=(900, 1800), parts=(4, 4), unblock=True),
     dict(name="h_deep", timeout=(400, 900), unblock=True),
     dict(name="h_select", timeout=(600, 1500), unblock=True),
     dict(name="h_parallel", timeout=(400, 900), unblock=True),
